@@ -244,6 +244,15 @@ def _alt_cycle_problem(p, spec):
     return "aliasing lost" in mm.group(4) or "class " in mm.group(4) or "became one object" in mm.group(4)
 
 
+def _only_alt_cycle(problems, spec):
+    """every problem is an identity / class problem on a reference to the cyclic alternatively mapped class; a root
+    that is reached again through such a cycle (second root of a shared conversion state) counts when at least one
+    proper problem of that kind is present"""
+    proper = [p for p in problems if _alt_cycle_problem(p, spec)]
+    rest = [p for p in problems if not _alt_cycle_problem(p, spec)]
+    return bool(proper) and all(p.startswith("root: ") and "aliasing lost" in p for p in rest)
+
+
 def run(m, iface, seed, n, opts):
     from krrood.ormatic.dao import to_dao, get_dao_class, ToDAOState, FromDAOState
     spec = opts["spec"]
@@ -290,8 +299,8 @@ def run(m, iface, seed, n, opts):
             except Exception as e:
                 problems.append(f"exception {type(e).__name__}: {e}"[:300])
             if problems:
-                out["failures"].append({"check": "C04", "i": i, "problems": problems[:4], "hier": uses_hier, "shape": shape,
-                                        "only_alt_mapped_cycle": all(_alt_cycle_problem(p, spec) for p in problems)})
+                out["failures"].append({"check": "C04", "i": i, "problems": problems[:12], "hier": uses_hier, "shape": shape,
+                                        "only_alt_mapped_cycle": _only_alt_cycle(problems, spec)})
         if mode in ("c05", "both"):
             problems = db_roundtrip(m, iface, spec, root, C)
             if problems:
@@ -302,9 +311,9 @@ def run(m, iface, seed, n, opts):
                     mm = re.match(r".*\.(\w+)(\{\d+\})?: \w+ -> NoneType$", p)
                     return bool(mm) and mm.group(1) in hier_names
 
-                out["failures"].append({"check": "C05", "i": i, "problems": problems[:4], "hier": uses_hier, "shape": shape,
+                out["failures"].append({"check": "C05", "i": i, "problems": problems[:12], "hier": uses_hier, "shape": shape,
                                         "only_hierarchy_reference_lost": all(hier_loss(p) for p in problems),
-                                        "only_alt_mapped_cycle": all(_alt_cycle_problem(p, spec) for p in problems)})
+                                        "only_alt_mapped_cycle": _only_alt_cycle(problems, spec)})
     out["counters"] = dict(C)
     return out
 
